@@ -64,6 +64,8 @@ def shrink_candidates(s):
 def execute(scenario, ch):
     sc = dict(scenario, tps=[dict(t) for t in scenario["tps"]], ref_depth=6)
     k, cases, ctx = snapcommon.run_cases(sc, ch)
+    if k.capped and not k.hang:
+        return common.result(k, [])     # cut off by the step / time budget: a half-done run, inconclusive
     viol = []
     shared_seen = 0
     if ctx.get("raised"):
